@@ -137,8 +137,6 @@ Definition w_integral_double := (cfg_flat, OFlt FDouble [49]).
 Definition w_ratio_radix := (Pcfg 2 true CDown false 80 true true true, ORat 3 4).
 (* a 2x2 array with *print-radix*: the rank is printed as an integer, #2.A((1. 2.) (3. 4.)) *)
 Definition w_array_radix := (Pcfg 10 true CDown false 80 true true true, OArr 2 [OList [fx 1; fx 2]; OList [fx 3; fx 4]]).
-(* é (UTF-8 c3 a9): no bars, and the reader rejects bytes above 0x7f outside bars *)
-Definition w_symbol_non_ascii := (Pcfg 10 false CNone false 80 true true true, OSym [195; 169]).
 (* the symbol named nil is printed nil *)
 Definition w_symbol_nil := (cfg_flat, OSym [110; 105; 108]).
 (* #\( and the character with code 0 *)
@@ -148,7 +146,7 @@ Definition w_char_nul := (cfg_flat, OChr 0).
 Definition w_symbol_dot := (cfg_flat, OList [OSym [97]; OSym [46]; OSym [98]]).
 
 Definition refutation_witnesses : list (pcfg * obj) :=
-  [w_string_quote; w_single_float; w_integral_double; w_ratio_radix; w_array_radix; w_symbol_non_ascii; w_symbol_nil; w_char_paren; w_char_nul; w_symbol_dot].
+  [w_string_quote; w_single_float; w_integral_double; w_ratio_radix; w_array_radix; w_symbol_nil; w_char_paren; w_char_nul; w_symbol_dot].
 Theorem outside_guard_refuted : forallb (fun w => refuted (fst w) (snd w)) refutation_witnesses = true.
 Proof. vm_compute. reflexivity. Qed.
 (* what the model makes of some of them *)
